@@ -41,13 +41,33 @@ def enum_jobs(tier):
     js = []
     q = tier == "quick"
     second = 1 * 9 + 4          # [Small, Flush]
+
+    def digits(c):
+        out = []
+        while c:
+            out.append(c % 9)
+            c //= 9
+        return out
+
+    def legal(a, b):
+        # API preconditions, not part of the property: a logger is removed at most once, and backtrace operations come
+        # from one thread only (the reference model of the backtrace ring follows that thread's program order)
+        da, db = digits(a), digits(b)
+        if (da + db).count(8) > 1:
+            return False
+        bt = {5, 6, 7}
+        return not (bt & set(da) and bt & set(db))
     for scn in (("c08.bd",) if q else ("c08.bd", "c08.ud")):
         for a in script_codes(3):
+            if not legal(a, second):
+                continue
             for cstr in ((0,) if q else (0, 1)):
                 js.append({"scenario": scn, "cfg": {"shape": -1, "t1": a, "t2": second, "tbuf": 2, "cstr": cstr}, "bound": 0, "deadline": 120})
         if not q:
             for a in script_codes(2):
                 for b in script_codes(2):
+                    if not legal(a, b):
+                        continue
                     js.append({"scenario": scn, "cfg": {"shape": -1, "t1": a, "t2": b, "tbuf": 1}, "bound": 1, "deadline": 120})
     return js
 
